@@ -899,6 +899,12 @@ impl Driver {
             self.set_ping_interval(v);
             return;
         }
+        if self.r.below(100) < (if f == Focus::Timers { 5 } else { 1 }) {
+            // the response timeout is a live setting: change it in the middle of a connection too
+            let v = *self.r.pick(&[0u64, 0, 500, 900]);
+            self.set_pingresp_timeout(v);
+            return;
+        }
         if self.r.below(1000) < (if f == Focus::Ids { 40 } else { 8 }) {
             // a send that must be refused whatever the state: wrong protocol version, or a packet kind
             // this role may never send - carrying a packet id the application holds
